@@ -299,6 +299,26 @@ def _iter_mut(it, p, fid, fn, t, args):
     return SIter("mut", q, _script_for(it, s.items))
 
 
+def _slice_iter(it, p, fid, fn, t, args):
+    """slice::iter over a collection given as a tuple of abstract elements: a script of (index, element)"""
+    v = deref_all(it, p, args[0])
+    if isinstance(v, Tup):
+        return SIter("into", None, [(Int(k, "usize"), x) for k, x in enumerate(v.fields)])
+    return NotImplemented
+
+
+def _rev(it, p, fid, fn, t, args):
+    v = deref_all(it, p, args[0])
+    if not isinstance(v, SIter) or v.pos != 0:
+        return NotImplemented
+    if v.enum:
+        return SIter(v.kind, v.src, tuple(reversed(v.script)), 0, True)
+    if all(isinstance(i, Int) for i, _ in v.script):     # indices are handed out by a later enumerate(): renumber
+        vals = [x for _, x in reversed(v.script)]
+        return SIter(v.kind, v.src, [(Int(k, "usize"), x) for k, x in enumerate(vals)], 0, False)
+    return NotImplemented
+
+
 def _enumerate(it, p, fid, fn, t, args):
     v = deref_all(it, p, args[0])
     if isinstance(v, SIter):
@@ -368,17 +388,21 @@ MODELS = {
     "core::ops::arith::Add::add": _arith(1),
     "core::iter::traits::collect::IntoIterator::into_iter": _into_iter,
     "core::slice::<impl [T]>::iter_mut": _iter_mut,
+    "core::slice::<impl [T]>::iter": _slice_iter,
     "core::iter::traits::iterator::Iterator::enumerate": _enumerate,
+    "core::iter::traits::iterator::Iterator::rev": _rev,
     "core::iter::traits::iterator::Iterator::next": _next,
     "core::iter::traits::iterator::Iterator::for_each": _for_each,
 }
 
 
-def words(F, fn, args, x=None, expand="body", max_paths=4096):
+def words(F, fn, args, x=None, expand="body", max_paths=4096, extra_models=None):
     """[{word, kind, assume}] for every path of the generator fn(args); x in (None, 'Break', 'Continue') picks the generic element."""
     models = dict(absint.DEFAULT_MODELS)
     models.update(seqgen.MODELS)
     models.update(MODELS)
+    if extra_models:
+        models.update(extra_models)
     it = Interp(F, models=models, max_depth=5, max_paths=max_paths, loop_bound=16)
     it.jcfg = {"expand": expand, "x": x}
     it.jreg = []
